@@ -16,6 +16,7 @@ let handle = function
   | ["compile"; name; scope] ->
       let sc = if scope = "-" then [] else List.map zs_of_hex (String.split_on_char ',' scope) in
       string_of_z (compile_type_hash sc (zs_of_hex name)) ^ " " ^ hex_of_zs (compile_type_identifier sc (zs_of_hex name))
+  | ["idfromname"; h] -> hex_of_zs (identifier_from_name (zs_of_hex h))
   | ["idfromhash"; d] -> hex_of_zs (identifier_from_type_hash (z_of_string d))
   | ["hashfromid"; h] -> string_of_z (type_hash_from_identifier (zs_of_hex h))
   | ["hashfromstr"; h] -> string_of_z (type_hash_from_string (zs_of_hex h))
